@@ -4,6 +4,7 @@
 From Coq Require Import ZArith String List Bool.
 From FV Require Import Model.Peg Model.ParserStrings Model.ParserAst Model.ParserActions Model.Parser
      Model.ParserFiles Judge.Wire.
+From FV Require Model.CompilerValidate.
 Import ListNotations.
 Open Scope Z_scope.
 
@@ -131,9 +132,12 @@ Definition judge_parse (f : list tok) : Z :=
   | PNoFuel => -1
   end.
 
-(** case kind 2: [2; [[path; content]...]; root path; observed code (0 ok / 1 error / 100 panic); observed tree]
+(** case kind 2: [2; [[path; content]...]; root path; observed code (0 ok / 1 error / 100 panic); observed tree;
+                  observed error text]
     tree = [name; parse tree; [[include key; tree]...]] with keys in first-occurrence order
-    tags: ok -> 3000 + min(#files in the tree, 99); error -> 4000; panic -> 4100 *)
+    tags: ok -> 3000 + min(#files in the tree, 99); error -> [files_err_tag] of the model's diagnostic (4000 + class,
+    or 4200 + class of the wrapped message when the error came up through an include; [err_class]: which
+    check of validate / parseFrugal fired; 50 = a syntax error); panic -> 4100 *)
 Fixpoint enc_ftree (t : ftree) : tok :=
   match t with
   | FTree name f incs =>
@@ -152,6 +156,57 @@ Fixpoint ftree_size (t : ftree) : Z :=
            match l with [] => 0 | (_, sub) :: r => ftree_size sub + go r end) incs
   end.
 
+(** ** error classes (tags): which check of the model fired, read off the message prefix *)
+Definition pre (m : bytes) (s : string) : bool := has_prefix (bytes_of_string s) m.
+Definition err_class (m : bytes) : Z :=
+  if pre m "Duplicate service" then 1 else if pre m "Services " then 2
+  else if pre m "Duplicate method" then 3 else if pre m "Methods " then 4
+  else if pre m "Duplicate scope" then 5 else if pre m "Scopes " then 6
+  else if pre m "Duplicate operation" then 7 else if pre m "Operations " then 8
+  else if pre m """vendor""" then 9
+  else if pre m "Duplicate include" then 10
+  else if pre m "Invalid type " then 11
+  else if pre m "Referenced constant" then 12
+  else if pre m "Include " then (if has_suffix (bytes_of_string " not found") m then 13 else 40)
+  else if pre m "Invalid constant name" then 14
+  else if pre m "Invalid alias" then 15
+  else if pre m "Circular typedef" then 16
+  else if pre m "Duplicate field id" then 17
+  else if pre m "Duplicate field name" then 18
+  else if pre m "Invalid return type" then 19
+  else if pre m "Invalid argument type" then 20
+  else if pre m "Invalid exception type" then (if has_suffix (bytes_of_string "not an exception") m then 22 else 21)
+  else if pre m "Invalid extends" then 23
+  else if pre m "Circular extends" then 24
+  else if pre m "Oneway method" then 25
+  else if pre m "Void method" then 26
+  else if pre m "Invalid operation type" then 27
+  else if pre m "Invalid value" then 28
+  else if pre m "Duplicate prefix variable" then 29
+  else if pre m "open " then 41
+  else if pre m "Circular include" then 42
+  else if pre m "Bad include name" then 43
+  else if pre m "Invalid file" then 44
+  else 50.
+
+(** "Include v: m" (parseFrugal wraps the error of an included file): the wrapped message *)
+Fixpoint after_colon_sp (m : bytes) : option bytes :=
+  match m with
+  | 58 :: ((32 :: t) as r) => Some t
+  | _ :: t => after_colon_sp t
+  | [] => None
+  end.
+Fixpoint inner_msg (fuel : nat) (m : bytes) : bytes :=
+  match fuel with
+  | O => m
+  | S n => if pre m "Include " then match after_colon_sp m with Some t => inner_msg n t | None => m end else m
+  end.
+(** 4000 + class for an error of the root file, 4200 + class of the innermost message for an error
+    that came up through includes ([err_class] of the empty message, a syntax error, is 50) *)
+Definition files_err_tag (m : bytes) : Z :=
+  let i := inner_msg 8 m in
+  if beqb i m then 4000 + err_class m else 4200 + err_class i.
+
 Definition to_path (b : bytes) : path := clean (split_on 47 b []).
 
 Definition judge_files (f : list tok) : Z :=
@@ -160,10 +215,28 @@ Definition judge_files (f : list tok) : Z :=
   let root := to_path (as_bytes (nth_tok 2 f)) in
   let ocode := as_int (nth_tok 3 f) in
   let obs := nth_tok 4 f in
-  match parse_program files root with
-  | FOk t => if (ocode =? 0) && tok_eqb (enc_ftree t) obs then 3000 + Z.min (ftree_size t) 99 else -1
-  | FErr => if ocode =? 1 then 4000 else -1
-  | FPanic => if ocode =? 100 then 4100 else -1
+  let omsg := as_bytes (nth_tok 5 f) in
+  match parse_program_checked files root with
+  | None => -1                          (* no verdict of the PEG interpreter on some text: never agreement *)
+  | Some (false, _) => -1               (* a parsed name the grammar cannot produce: outside the theorems *)
+  | Some (true, r) =>
+    (* [fres_of r] = [parse_program files root] (Proofs/ParserFilesProofs.v parse_program_checked_total) *)
+    match fres_of r with
+    | FOk t => if (ocode =? 0) && tok_eqb (enc_ftree t) obs then 3000 + Z.min (ftree_size t) 99 else -1
+    | FErr => if ocode =? 1
+              then match r with
+                   | CompilerValidate.PErr m =>
+                     (* a diagnostic of validate (classes below 40, at the root or wrapped by "Include v: ") is
+                        compared byte for byte with the text ParseFrugal returned; syntax errors (the model of
+                        ParseFrugal carries no text for them) and messages that name a path of the host are not *)
+                     let tag := files_err_tag m in
+                     if (tag mod 100 <? 40) && negb (beqb m omsg) then -1 else tag
+                   | _ => 4000
+                   end
+              else -1
+    | FPanic => if ocode =? 100 then 4100 else -1
+    | FFuel => -1                       (* no verdict of the model is never agreement *)
+    end
   end.
 
 Definition judge_case (t : tok) : Z :=
